@@ -113,7 +113,7 @@ func runStream(seed int64, n int, opt gen.Options, mk func(i int) *gen.Case, eac
 
 // goBuild type-checks/compiles package dir (ordinary build: no convergen tag) in the scratch module.
 func goBuild(dir, pkg string) (bool, string) {
-	cmd := exec.Command("go", "vet", "./"+pkg)
+	cmd := exec.Command("go", "build", "./"+pkg)
 	cmd.Dir = dir
 	cmd.Env = tool.BaseEnv()
 	out, err := cmd.CombinedOutput()
